@@ -71,6 +71,25 @@ static std::string cpp_encrypt(int family, int alg, const Bytes &key, const Byte
     return "";
 }
 
+// the same through the key constructor (isap: (key, len))
+template <class T> static ascon::aead *mk_key(const unsigned char *k, size_t) { return new T(k); }
+template <class T> static ascon::aead *mk_keylen(const unsigned char *k, size_t n) { return new T(k, n); }
+typedef ascon::aead *(*mk_fn)(const unsigned char *, size_t);
+static const mk_fn MKCTOR[12] = {
+    mk_key<ascon::aead128>, mk_key<ascon::aead128a>, mk_key<ascon::aead80pq>,
+    mk_key<ascon::aead128_masked>, mk_key<ascon::aead128a_masked>, mk_key<ascon::aead80pq_masked>,
+    mk_key<ascon::siv128>, mk_key<ascon::siv128a>, mk_key<ascon::siv80pq>,
+    mk_keylen<ascon::isap128a>, mk_keylen<ascon::isap128>, mk_keylen<ascon::isap80pq>};
+static std::string cpp_encrypt_ctor(int family, int alg, const Bytes &key, const Bytes &nonce, const Bytes &ad, const Bytes &pt, Bytes &out) {
+    Buf k(key), n(nonce);
+    std::unique_ptr<ascon::aead> o(MKCTOR[family * 3 + alg](k.p, k.n));
+    ascon::byte_array m(pt.begin(), pt.end()), a(ad.begin(), ad.end()), c;
+    o->set_nonce(n.p, n.n);
+    o->encrypt(c, m, a);
+    out.assign(c.begin(), c.end());
+    return "";
+}
+
 static std::string check_c01(const KV &c) {
     int alg = (int)tonum(c, "alg");
     Bytes key = tobytes(c, "key"), nonce = tobytes(c, "nonce"), ad = tobytes(c, "ad"), pt = tobytes(c, "pt");
@@ -94,6 +113,11 @@ static std::string check_c01(const KV &c) {
     e = cpp_encrypt(1, alg, key, nonce, ad, pt, got);
     if (!e.empty()) return "masked " + e;
     if (got != want) return "C++ masked class encrypt differs from reference";
+    cpp_encrypt_ctor(0, alg, key, nonce, ad, pt, got);
+    if (got != want) return "C++ aead class (key constructor, byte_array overload) encrypt differs from reference";
+    set_tape((int)tonum(c, "tape"), tonum(c, "tapeseed") + 2);
+    cpp_encrypt_ctor(1, alg, key, nonce, ad, pt, got);
+    if (got != want) return "C++ masked class (key constructor, byte_array overload) encrypt differs from reference";
     return "";
 }
 
@@ -103,10 +127,51 @@ static const char *FAMNAME[5] = {"oneshot", "incremental", "masked", "siv", "isa
 
 struct Inputs { Bytes key, nonce, ad, ct; };
 
+// Incremental family: the packet is the SECOND packet of a session whose first
+// packet (generated length, see g_warmup) ran on the same state object under
+// nonce - 1, so that state left over from an earlier packet matters.
+static Bytes g_warmup;
+static Bytes nonce_minus_one(Bytes n) { for (int i = 15; i >= 0; --i) if (n[i]--) break; return n; }
+template <class A> static Bytes inc_session_encrypt_t(const Bytes &key, const Bytes &nonce, const Bytes &ad, const Bytes &pt, const std::vector<uint64_t> &chunks) {
+    typename A::state_t *s = (typename A::state_t *)xalloc(sizeof(typename A::state_t));
+    Bytes n0 = nonce_minus_one(nonce);
+    Buf k(key), n(n0);
+    A::init(s, n.p, k.p);
+    std::vector<uint64_t> one; if (!g_warmup.empty()) one.push_back(g_warmup.size());
+    lib::inc_encrypt_packet<A>(s, ad, g_warmup, one, false);
+    Bytes out = lib::inc_encrypt_packet<A>(s, ad, pt, chunks, false);
+    A::free_(s);
+    xfree(s, sizeof(typename A::state_t));
+    return out;
+}
+static Bytes inc_session_encrypt(int alg, const Bytes &key, const Bytes &nonce, const Bytes &ad, const Bytes &pt, const std::vector<uint64_t> &chunks) {
+    if (alg == 0) return inc_session_encrypt_t<lib::Incascon128>(key, nonce, ad, pt, chunks);
+    if (alg == 1) return inc_session_encrypt_t<lib::Incascon128a>(key, nonce, ad, pt, chunks);
+    return inc_session_encrypt_t<lib::Incascon80pq>(key, nonce, ad, pt, chunks);
+}
+template <class A> static int inc_session_decrypt_t(int alg, const Bytes &key, const Bytes &nonce, const Bytes &ad, const Bytes &ct, const std::vector<uint64_t> &chunks, Bytes &pt) {
+    typename A::state_t *s = (typename A::state_t *)xalloc(sizeof(typename A::state_t));
+    Bytes n0 = nonce_minus_one(nonce);
+    Buf k(key), n(n0);
+    A::init(s, n.p, k.p);
+    Bytes w = lib::enc_generic(lib::AEAD_ENC[alg], key, n0, ad, g_warmup), wp;
+    std::vector<uint64_t> one; if (!g_warmup.empty()) one.push_back(g_warmup.size());
+    lib::inc_decrypt_packet<A>(s, ad, w, one, false, wp);
+    int rc = lib::inc_decrypt_packet<A>(s, ad, ct, chunks, false, pt);
+    A::free_(s);
+    xfree(s, sizeof(typename A::state_t));
+    return rc;
+}
+static int inc_session_decrypt(int alg, const Bytes &key, const Bytes &nonce, const Bytes &ad, const Bytes &ct, const std::vector<uint64_t> &chunks, Bytes &pt) {
+    if (alg == 0) return inc_session_decrypt_t<lib::Incascon128>(alg, key, nonce, ad, ct, chunks, pt);
+    if (alg == 1) return inc_session_decrypt_t<lib::Incascon128a>(alg, key, nonce, ad, ct, chunks, pt);
+    return inc_session_decrypt_t<lib::Incascon80pq>(alg, key, nonce, ad, ct, chunks, pt);
+}
+
 static Bytes fam_encrypt(int fam, int alg, const Bytes &key, const Bytes &nonce, const Bytes &ad, const Bytes &pt, const std::vector<uint64_t> &chunks) {
     switch (fam) {
     case 0: return lib::enc_generic(lib::AEAD_ENC[alg], key, nonce, ad, pt);
-    case 1: return lib::inc_encrypt_alg(alg, key, nonce, ad, pt, chunks, false);
+    case 1: return inc_session_encrypt(alg, key, nonce, ad, pt, chunks);
     case 2: return lib::masked_encrypt(alg, key, nonce, ad, pt);
     case 3: return lib::enc_generic(lib::SIV_ENC[alg], key, nonce, ad, pt);
     default: { lib::IsapKey k(alg); k.init(key); Bytes r = k.encrypt(nonce, ad, pt); k.free_(); return r; }
@@ -124,7 +189,7 @@ static int fam_decrypt(int fam, int alg, const Inputs &in, Bytes &out, bool &buf
         std::vector<uint64_t> ch;
         size_t n = in.ct.size() - 16;
         if (n) { ch.push_back(n / 3); ch.push_back(n - n / 3); }
-        return lib::inc_decrypt_alg(alg, in.key, in.nonce, in.ad, in.ct, ch, false, out);
+        return inc_session_decrypt(alg, in.key, in.nonce, in.ad, in.ct, ch, out);
     }
     case 2: { lib::DecResult r = lib::masked_decrypt(alg, in.key, in.nonce, in.ad, in.ct); out = r.out; return r.rc; }
     case 3: { lib::DecResult r = lib::dec_generic(lib::SIV_DEC[alg], in.key, in.nonce, in.ad, in.ct); out = r.out; return r.rc; }
@@ -181,9 +246,11 @@ static std::string check_c02(const KV &c) {
     uint64_t tpos = tonum(c, "tpos");
     Bytes key = tobytes(c, "key"), nonce = tobytes(c, "nonce"), ad = tobytes(c, "ad"), pt = tobytes(c, "pt"), tdata = tobytes(c, "tdata");
     set_tape((int)tonum(c, "tape"), tonum(c, "tapeseed"));
+    g_warmup = tdata;     // first packet of the incremental session (0..40 bytes)
     std::vector<uint64_t> chunks;
     if (!pt.empty()) { chunks.push_back(pt.size() / 2); chunks.push_back(pt.size() - pt.size() / 2); }
     Bytes ct = fam_encrypt(fam, alg, key, nonce, ad, pt, chunks);
+    if (fam == 1 && ct != lib::enc_generic(lib::AEAD_ENC[alg], key, nonce, ad, pt)) return "incremental alg " + num(alg) + ": second packet of a session (first packet " + num(g_warmup.size()) + " bytes) differs from the one-shot ciphertext under the same nonce";
     Inputs orig{key, nonce, ad, ct};
     // 1. round trip
     {
@@ -275,6 +342,8 @@ static std::string check_c06(const KV &c) {
         std::string e = cpp_encrypt(2, alg, key, nonce, ad, pt, cpp);
         if (!e.empty()) return "siv " + e;
         if (cpp != want) return "C++ siv class differs from reference";
+        cpp_encrypt_ctor(2, alg, key, nonce, ad, pt, cpp);
+        if (cpp != want) return "C++ siv class (key constructor) differs from reference";
         if (!pt.empty()) {
             Bytes pt2 = pt;
             uint64_t bit = tonum(c, "bit") % (pt.size() * 8);
@@ -309,6 +378,8 @@ static std::string check_c06(const KV &c) {
         std::string e = cpp_encrypt(3, alg, key, nonce, ad, pt, cpp);
         if (!e.empty()) return "isap " + e;
         if (cpp != want) return "C++ isap class differs from reference";
+        cpp_encrypt_ctor(3, alg, key, nonce, ad, pt, cpp);
+        if (cpp != want) return "C++ isap class (key constructor) differs from reference";
     }
     return "";
 }
